@@ -2913,8 +2913,10 @@ void SetN2kPGN59904(tN2kMsg &N2kMsg, uint8_t Destination, unsigned long Requeste
 }
 
 bool ParseN2kPGN59904(const tN2kMsg &N2kMsg, unsigned long &RequestedPGN) {
-  int result=((N2kMsg.DataLen>=3) && (N2kMsg.DataLen<=8));
   RequestedPGN=0;
+  if (N2kMsg.PGN!=59904L) return false;
+
+  int result=((N2kMsg.DataLen>=3) && (N2kMsg.DataLen<=8));
   if (result) {
     int Index=0;
     RequestedPGN=N2kMsg.Get3ByteUInt(Index);
